@@ -266,7 +266,7 @@ def build_scenarios(prop, tier, rnd):
             # a reader obtained before an overwrite / removal / re-put of the same content / reopen keeps
             # streaming the complete original content
             rd = []
-            for c in ("A", "G", "C", "E"):
+            for c in ("A", "G", "C", "E", "H", "M"):
                 rd.append([{"op": "put", "k": 1, "c": c}, {"op": "rdopen", "k": 1, "id": 1}, {"op": "put", "k": 1, "c": "B"}, {"op": "rddrain", "id": 1}])
                 rd.append([{"op": "put", "k": 1, "c": c}, {"op": "rdopen", "k": 1, "id": 1}, {"op": "del", "k": 1}, {"op": "ckpt"}, {"op": "rddrain", "id": 1}])
                 rd.append([{"op": "put", "k": 1, "c": c}, {"op": "put", "k": 2, "c": c}, {"op": "rdopen", "k": 2, "id": 7},
